@@ -143,6 +143,11 @@ struct Fwd : rtosc::RtData {
 std::string vf_run(const Case &c, vf::Ctx &ctx) {
   g_now = 1000;
   rtosc::UndoHistory u;
+  // every other case a second history lives next to the checked one and gets the same operations first (nothing is shared)
+  rtosc::UndoHistory u2;
+  u2.setCallback([](const char *) {});
+  const bool with_shadow = c.ops.size() % 2 == 0;
+  if (with_shadow) ctx.count("class.second_history_alongside");
   std::vector<std::string> emitted;
   Model m;
   App app, mapp;
@@ -192,6 +197,7 @@ std::string vf_run(const Case &c, vf::Ctx &ctx) {
         std::string msg = refosc::encode("/undo_change", std::string("s") + op.type + op.type, {[&] { refosc::Val v; v.t = 's'; v.s = e.addr; return v; }(), val(op.type, e.oldb), val(op.type, e.newb)});
         std::vector<char> b(msg.size() + 8, 0);
         memcpy(b.data(), msg.data(), msg.size());
+        if (with_shadow) u2.recordEvent(b.data());
         u.recordEvent(b.data());
       }
       if (expect_event) {
@@ -219,6 +225,7 @@ std::string vf_run(const Case &c, vf::Ctx &ctx) {
       std::vector<std::string> want;
       if (dest < (long)m.pos) for (long i = (long)m.pos - 1; i >= dest; --i) { const Entry &e = m.h[(size_t)i]; want.push_back(refosc::encode(e.addr, std::string(1, e.type), {val(e.type, e.oldb)})); if (c.e2e) app_set(mapp, e.addr, e.type, e.oldb); }
       else for (long i = (long)m.pos; i < dest; ++i) { const Entry &e = m.h[(size_t)i]; want.push_back(refosc::encode(e.addr, std::string(1, e.type), {val(e.type, e.newb)})); if (c.e2e) app_set(mapp, e.addr, e.type, e.newb); }
+      if (with_shadow) u2.seekHistory(op.dist);
       u.seekHistory(op.dist);
       m.pos = (size_t)dest;
       if (u.getPos() != m.pos) return "after seek(" + std::to_string(op.dist) + "): position " + std::to_string(u.getPos()) + ", expected " + std::to_string(m.pos) + W;
